@@ -38,10 +38,19 @@ ItemClause(e_) ==
     ELSE IF ~e_.sameextra THEN "domain-or-lattice-not-kept"
     ELSE "ok"
 SetClause(e_) == IF e_.exc # "" THEN "raised:" \o e_.exc ELSE "ok"
+\* a rejected call must raise ValueError and leave the observable state as the specification has it
+RejectClause(e_) ==
+    IF e_.kind \notin RejectKinds THEN "unknown-reject-kind"
+    ELSE IF e_.exc = "" THEN "bad-argument-accepted"
+    ELSE IF e_.exc # "ValueError" THEN "raised:" \o e_.exc
+    ELSE IF e_.ptsafter # pts THEN "points-changed-by-rejected-call"
+    ELSE IF e_.wtsafter # wts THEN "weights-changed-by-rejected-call"
+    ELSE "ok"
 Clause(e_) ==
     CASE e_.ev = "Query" -> QueryClause(e_)
       [] e_.ev = "GetItem" -> ItemClause(e_)
       [] e_.ev \in {"SetPoints", "SetWeights"} -> SetClause(e_)
+      [] e_.ev = "Reject" -> RejectClause(e_)
       [] OTHER -> "unknown-event"
 
 Apply(e_) ==
@@ -49,6 +58,7 @@ Apply(e_) ==
       [] e_.ev = "GetItem" -> GetItem(SelOf(e_))
       [] e_.ev = "SetPoints" -> SetPoints(e_.pts)
       [] e_.ev = "SetWeights" -> SetWeights(e_.wts)
+      [] e_.ev = "Reject" -> Reject(e_.kind)
 
 StartTrace(t_) ==
     /\ tid' = t_ /\ l' = 2
